@@ -132,8 +132,9 @@ class CoupledSystem:
             outs, in_names = [], []
             for o in d["outputs"]:
                 terms = []
-                names = list(o.get("lin", {}))
-                names += [n for n in o.get("tanh", {}) if n not in names]
+                # sorted: the order of the terms (hence the rounding of the sums) must not depend on the
+                # order of the dictionary keys, which a replay file (written with sorted keys) does not keep
+                names = sorted(set(o.get("lin", {})) | set(o.get("tanh", {})))
                 for name in names:
                     if name not in self.sizes:
                         raise ValueError(f"unknown input {name}")
